@@ -205,3 +205,409 @@ vharness! {
         ack_step(3)
     }
 }
+
+// =============================================================================================
+// window / wake-up steps (C05, C13)
+
+/// `n` outstanding sends without reply channels (only the queue length matters to the callers)
+fn fill_outstanding_plain(sh: &MqttShared, n: usize) {
+    let mut i = 0;
+    while i < n {
+        let id = num::NonZeroU16::new(100 + i as u16).unwrap();
+        let (tx, rx) = sh.pool.queue.channel();
+        std::mem::forget(rx);
+        let mut q = sh.queues.borrow_mut();
+        q.inflight.push_back((id, Some(tx), AckType::Publish));
+        q.inflight_ids.insert(id);
+        i += 1;
+    }
+}
+const NW: usize = 3;
+/// `w` parked senders, each either still waiting (receiver kept) or cancelled (future dropped)
+fn arb_waiters(sh: &MqttShared, w: usize) -> [Option<pool::Receiver<()>>; NW] {
+    let mut rxs: [Option<pool::Receiver<()>>; NW] = [const { None }; NW];
+    let mut i = 0;
+    while i < w {
+        let (tx, rx) = sh.pool.waiters.channel();
+        sh.queues.borrow_mut().waiters.push_back(tx);
+        if vk::any_bool() {
+            rxs[i] = Some(rx);
+        } else {
+            drop(rx);
+        }
+        i += 1;
+    }
+    rxs
+}
+/// Some(true) = signalled (may proceed), Some(false) = failed, None = still parked
+fn peek_unit(rx: &pool::Receiver<()>) -> Option<bool> {
+    let mut cx = vio::noop_cx();
+    match rx.poll_recv(&mut cx) {
+        Poll::Pending => None,
+        Poll::Ready(Ok(())) => Some(true),
+        Poll::Ready(Err(_)) => Some(false),
+    }
+}
+/// checks the FIFO wake discipline after an operation that may hand out `budget` free slots:
+/// live waiters are signalled strictly in queue order, at most `budget` of them, and if a live
+/// waiter is left parked then the whole budget was used. Returns the number signalled.
+fn check_wakes(sh: &MqttShared, rxs: &[Option<pool::Receiver<()>>; NW], w: usize, budget: usize) -> usize {
+    let mut signalled = 0usize;
+    let mut parked = 0usize;
+    let mut i = 0;
+    while i < w {
+        if let Some(rx) = rxs[i].as_ref() {
+            match peek_unit(rx) {
+                Some(true) => {
+                    assert!(parked == 0, "a later waiter was woken while an earlier live waiter stays parked");
+                    signalled += 1;
+                }
+                Some(false) => panic!("a parked sender was failed although the connection is healthy"),
+                None => parked += 1,
+            }
+        }
+        i += 1;
+    }
+    assert!(signalled <= budget, "more senders woken than slots were freed");
+    if parked > 0 {
+        assert!(signalled == budget, "lost wake-up: a slot is free, a live sender stays parked");
+    }
+    signalled
+}
+
+fn readiness_step(n: usize) {
+    vio::with_io(move |io| {
+        let sh = new_shared(io);
+        let cap = vk::any_usize();
+        sh.cap.set(cap);
+        let wrb = vk::any_bool();
+        if wrb {
+            sh.enable_wr_backpressure();
+        }
+        fill_outstanding_plain(&sh, n);
+        assert!(sh.credit() == if cap > n { cap - n } else { 0 });
+        assert!(sh.is_ready() == (cap > n && !wrb));
+        let r = sh.wait_readiness();
+        let must_park = n >= cap || wrb;
+        assert!(r.is_some() == must_park, "admission differs from: park iff outstanding >= limit or back-pressure");
+        let q = sh.queues.borrow();
+        assert!(q.inflight.len() == n);
+        assert!(q.waiters.len() == if must_park { 1 } else { 0 });
+        if let Some(rx) = r.as_ref() {
+            assert!(peek_unit(rx).is_none(), "a freshly parked sender is already released");
+        }
+        vcover!(must_park && !wrb, "parked on the window");
+        vcover!(!must_park, "admitted");
+        drop(q);
+        std::mem::forget(r);
+        std::mem::forget(sh);
+    })
+}
+macro_rules! readiness_inst {
+    ($name:ident, $n:expr) => {
+        vharness! {
+            //@ props: C05 C13
+            //@ tier: quick
+            //@ functions: v5::shared::MqttShared::{wait_readiness, is_ready, credit, enable_wr_backpressure}
+            //@ bounds: literal number of outstanding sends per instance (0..=3); send limit: usize full width; back-pressure flag any
+            //@ assumes: none
+            //@ desc: admission step: a sender is parked iff outstanding >= limit or write back-pressure is on; credit()/is_ready() agree with that; parking changes nothing else
+            fn $name() unwind(5) {
+                readiness_step($n)
+            }
+        }
+    };
+}
+readiness_inst!(sh5_readiness_n0, 0);
+readiness_inst!(sh5_readiness_n1, 1);
+readiness_inst!(sh5_readiness_n3, 3);
+
+fn ack_wake_step(w: usize) {
+    vio::with_io(move |io| {
+        let sh = new_shared(io);
+        sh.cap.set(vk::any_usize());
+        if vk::any_bool() {
+            sh.enable_wr_backpressure();
+        }
+        // the oldest outstanding send, waiting for an arbitrary ack type, correctly answered
+        let tp = any_acktype();
+        let id = nz(vk::any_u16());
+        let (tx, rx) = sh.pool.queue.channel();
+        {
+            let mut q = sh.queues.borrow_mut();
+            q.inflight.push_back((id, Some(tx), tp));
+            q.inflight_ids.insert(id);
+        }
+        let rxs = arb_waiters(&sh, w);
+        let res = sh.pkt_ack(mk_ack(tp, id));
+        assert!(res.is_ok());
+        // PUBREC does not finish the exchange: no slot is freed
+        let budget = if tp == AckType::Receive { 0 } else { 1 };
+        let signalled = check_wakes(&sh, &rxs, w, budget);
+        // cancelled waiters in front of the woken one are discarded, the rest stays queued in order
+        let q = sh.queues.borrow();
+        let mut live_after = 0usize;
+        let mut i = 0;
+        while i < w {
+            if let Some(r) = rxs[i].as_ref() {
+                if peek_unit(r).is_none() {
+                    live_after += 1;
+                }
+            }
+            i += 1;
+        }
+        assert!(q.waiters.len() >= live_after, "a parked live sender is no longer queued");
+        vcover!(signalled == 1, "one sender woken");
+        vcover!(signalled == 0 && tp != AckType::Receive, "final ack, nobody to wake");
+        drop(q);
+        std::mem::forget(rx);
+        std::mem::forget(rxs);
+        std::mem::forget(sh);
+    })
+}
+macro_rules! ack_wake_inst {
+    ($name:ident, $w:expr) => {
+        vharness! {
+            //@ props: C13 C05
+            //@ tier: quick
+            //@ functions: v5::shared::MqttShared::{pkt_ack, pkt_ack_inner} (wake loops), pool channel (model)
+            //@ bounds: one outstanding send (any expected ack type, any id) correctly acknowledged; literal number of parked senders per instance (1..=3), each live or cancelled (dropped future); limit and back-pressure flag any
+            //@ assumes: none beyond the queue invariant
+            //@ mem: 12  timeout: 900
+            //@ desc: one wake-up per freed slot: a final acknowledgement releases exactly the FIRST live parked sender (cancelled ones are skipped, not counted), PUBREC releases nobody, nobody is failed, live senders not released stay queued
+            fn $name() unwind(6) {
+                ack_wake_step($w)
+            }
+        }
+    };
+}
+ack_wake_inst!(sh5_ack_wake_w1, 1);
+ack_wake_inst!(sh5_ack_wake_w2, 2);
+ack_wake_inst!(sh5_ack_wake_w3, 3);
+
+fn wrb_off_step(n: usize, w: usize) {
+    vio::with_io(move |io| {
+        let sh = new_shared(io);
+        let cap = vk::any_usize();
+        sh.cap.set(cap);
+        sh.enable_wr_backpressure();
+        fill_outstanding_plain(&sh, n);
+        let rxs = arb_waiters(&sh, w);
+        // a streamed send parked on back-pressure: absent / live / cancelled
+        let sw = vk::any_u8();
+        vk::assume(sw < 3);
+        let mut srx = None;
+        if sw > 0 {
+            let (tx, rx) = sh.pool.waiters.channel();
+            sh.streaming_waiter.set(Some(tx));
+            if sw == 1 {
+                srx = Some(rx);
+            } else {
+                drop(rx);
+            }
+        }
+        sh.disable_wr_backpressure();
+        assert!(!sh.flags.get().contains(Flags::WRB_ENABLED));
+        if let Some(rx) = srx.as_ref() {
+            assert!(peek_unit(rx) == Some(true), "streamed send paused by back-pressure not resumed when it lifts");
+        }
+        let budget = if cap > n { cap - n } else { 0 };
+        let signalled = check_wakes(&sh, &rxs, w, budget);
+        vcover!(signalled == 2, "two senders released");
+        vcover!(signalled == 0 && budget == 0, "window full: nobody released");
+        std::mem::forget(srx);
+        std::mem::forget(rxs);
+        std::mem::forget(sh);
+    })
+}
+macro_rules! wrb_off_inst {
+    ($name:ident, $n:expr, $w:expr) => {
+        vharness! {
+            //@ props: C13 C05
+            //@ tier: quick
+            //@ functions: v5::shared::MqttShared::{disable_wr_backpressure, enable_wr_backpressure}, pool channel (model)
+            //@ bounds: literal outstanding sends (0..=1) and parked senders (2) per instance, each parked sender live or cancelled; streamed-send waiter absent / live / cancelled; limit: usize full width
+            //@ assumes: none
+            //@ mem: 12  timeout: 900
+            //@ desc: back-pressure lifts: the flag clears, a paused streamed send resumes, and the free window slots (limit - outstanding) are handed to live parked senders in FIFO order: never more than free slots, and no live sender stays parked while a slot is free
+            fn $name() unwind(6) {
+                wrb_off_step($n, $w)
+            }
+        }
+    };
+}
+wrb_off_inst!(sh5_wrb_off_n0_w2, 0, 2);
+wrb_off_inst!(sh5_wrb_off_n1_w2, 1, 2);
+
+fn set_cap_step(w: usize) {
+    vio::with_io(move |io| {
+        let sh = new_shared(io);
+        let rxs = arb_waiters(&sh, w);
+        let cap = vk::any_usize();
+        vk::assume(cap <= 4);
+        sh.set_cap(cap);
+        assert!(sh.cap.get() == cap);
+        let signalled = check_wakes(&sh, &rxs, w, cap);
+        vcover!(signalled == 2, "two early senders released");
+        std::mem::forget(rxs);
+        std::mem::forget(sh);
+    })
+}
+vharness! {
+    //@ props: C05 C13
+    //@ tier: quick
+    //@ functions: v5::shared::MqttShared::set_cap
+    //@ bounds: connection set-up state (nothing outstanding), 3 senders parked before the limit was known (each live or cancelled), new limit 0..=4
+    //@ assumes: set_cap is called with nothing outstanding (its call sites: right after the handshake)
+    //@ mem: 12  timeout: 900
+    //@ desc: the limit becomes known: at most `limit` live parked senders are released, FIFO, none stays parked while a slot is free
+    fn sh5_set_cap_w3() unwind(7) {
+        set_cap_step(3)
+    }
+}
+
+// =============================================================================================
+// identifiers and registration (C06)
+vharness! {
+    //@ props: C06
+    //@ tier: quick
+    //@ functions: v5::shared::MqttShared::{next_id, set_publish_id}
+    //@ bounds: id counter: every u16 value the code can store (0..=65534)
+    //@ assumes: counter invariant: inflight_idx <= 65534 (next_id stores 0 instead of 65535)
+    //@ desc: automatic identifiers are never 0, count 1..=65535 and wrap to 1; two consecutive ones differ; an explicit identifier is kept
+    fn sh5_next_id() unwind(3) {
+        vio::with_io(move |io| {
+            let sh = new_shared(io);
+            let c = vk::any_u16();
+            vk::assume(c != u16::MAX);
+            sh.inflight_idx.set(c);
+            let a = sh.next_id().get();
+            assert!(a == c + 1);
+            assert!(sh.inflight_idx.get() != u16::MAX);
+            let b = sh.next_id().get();
+            assert!(b != 0 && a != b);
+            assert!(b == if a == u16::MAX { 1 } else { a + 1 });
+            let mut p = codec::Publish::default();
+            let want = vk::any_u16();
+            p.packet_id = num::NonZeroU16::new(want);
+            let got = sh.set_publish_id(&mut p).get();
+            assert!(p.packet_id.map(|x| x.get()) == Some(got));
+            if want != 0 {
+                assert!(got == want);
+            }
+            vcover!(a == u16::MAX, "wrap");
+            std::mem::forget(p);
+            std::mem::forget(sh);
+        })
+    }
+}
+
+fn any_publish(qos: QoS) -> (codec::Publish, Option<Bytes>) {
+    let mut p = codec::Publish::default();
+    p.qos = qos;
+    p.topic = ntex_bytes::ByteString::from_static("t");
+    p.payload_size = vk::any_u32();
+    // complete payload (2 bytes) or a streamed one (no first chunk)
+    let payload = if vk::any_bool() {
+        vk::assume(p.payload_size == 2);
+        Some(Bytes::from_static(b"ab"))
+    } else {
+        None
+    };
+    (p, payload)
+}
+
+fn register_step(n: usize) {
+    vio::with_io(move |io| {
+        let sh = new_shared(io);
+        sh.cap.set(vk::any_usize());
+        // peer Maximum Packet Size: unlimited, or so small that the PUBLISH cannot be encoded
+        let tiny = vk::any_bool();
+        if tiny {
+            sh.codec.set_max_outbound_size(8);
+        }
+        let (outs, _) = arb_outstanding(&sh, n);
+        let id = nz(vk::any_u16());
+        let in_use = {
+            let mut f = false;
+            let mut i = 0;
+            while i < n {
+                if outs[i].as_ref().unwrap().id == id {
+                    f = true;
+                }
+                i += 1;
+            }
+            f
+        };
+        let publish = vk::any_bool();
+        let tp = any_acktype();
+        let mut streamed = false;
+        let res = if publish {
+            let (mut p, payload) = any_publish(QoS::AtLeastOnce);
+            p.packet_id = Some(id);
+            streamed = payload.is_none() && p.payload_size > 0;
+            sh.wait_publish_response(id, tp, p, payload)
+        } else {
+            sh.wait_response(id, tp)
+        };
+        let q = sh.queues.borrow();
+        if in_use {
+            assert!(matches!(res, Err(SendPacketError::PacketIdInUse(x)) if x == id), "identifier in use was accepted");
+        }
+        match res.as_ref() {
+            Ok(rx) => {
+                assert!(!in_use);
+                assert!(q.inflight.len() == n + 1);
+                let last = q.inflight.get(n).unwrap();
+                assert!(last.0 == id && last.2 == tp && last.1.is_some());
+                assert!(q.inflight_ids.contains(&id));
+                assert!(peek(rx).is_none());
+                if publish {
+                    assert!(io.frames() == 1 && io.frame_first(0) & 0xf0 == 0x30, "registered without writing the PUBLISH");
+                    assert!(sh.is_streaming() == streamed);
+                } else {
+                    assert!(io.frames() == 0);
+                }
+            }
+            Err(_) => {
+                // a send that fails locally leaves no trace: later sends are not affected by it
+                assert!(q.inflight.len() == n, "failed send left an entry in the outstanding queue");
+                assert!(q.inflight_ids.contains(&id) == in_use, "failed send left its identifier reserved");
+                assert!(io.frames() == 0 && io.torn() == 0, "failed send left bytes on the wire");
+                assert!(!sh.is_streaming(), "failed send left the connection waiting for payload chunks");
+            }
+        }
+        // the older sends are untouched
+        let mut i = 0;
+        while i < n {
+            let o = outs[i].as_ref().unwrap();
+            assert!(q.inflight.get(i).unwrap().0 == o.id);
+            assert!(peek(o.rx.as_ref().unwrap()).is_none());
+            i += 1;
+        }
+        vcover!(res.is_ok() && publish, "publish registered");
+        vcover!(res.is_err() && !in_use, "local encode failure");
+        drop(q);
+        std::mem::forget(res);
+        std::mem::forget(outs);
+        std::mem::forget(sh);
+    })
+}
+macro_rules! register_inst {
+    ($name:ident, $n:expr) => {
+        vharness! {
+            //@ props: C06
+            //@ tier: quick
+            //@ functions: v5::shared::MqttShared::{wait_response, wait_publish_response, enable_streaming, check_streaming}, v5 Codec::encodev (real, through the IoRef model)
+            //@ bounds: literal number of outstanding sends per instance (0..=2, ids u16 full width, distinct); new send: any non-zero id, any expected ack type; PUBLISH with a complete 2-byte payload or streamed (declared size u32 full width) or SUBSCRIBE-style registration; peer Maximum Packet Size unlimited or 8 (encode fails)
+            //@ assumes: queue invariant
+            //@ mem: 16  timeout: 900
+            //@ desc: registering a send: an identifier still in use is refused (PacketIdInUse) and never queued twice; a successful registration appends exactly one entry at the back, reserves the id, writes exactly one PUBLISH; a send that fails locally leaves no entry, no reserved id, no bytes and no streaming state behind
+            fn $name() unwind(5) {
+                register_step($n)
+            }
+        }
+    };
+}
+register_inst!(sh5_register_n0, 0);
+register_inst!(sh5_register_n2, 2);
